@@ -36,7 +36,9 @@ func DeserializeStyles(input values.String) (*values.Object, error) {
 			break
 		}
 
-		if token.Type == scanner.TokenEOF {
+		// after an error (an unclosed string, comment or url) the scanner
+		// returns the same error token forever
+		if token.Type == scanner.TokenEOF || token.Type == scanner.TokenError {
 			break
 		}
 
@@ -50,6 +52,10 @@ func DeserializeStyles(input values.String) (*values.Object, error) {
 				if token.Value != ":" && token.Type != scanner.TokenS {
 					break
 				}
+			}
+
+			if token.Type == scanner.TokenEOF || token.Type == scanner.TokenError {
+				break
 			}
 		}
 
